@@ -163,6 +163,82 @@ static void mt_scenario(int nsub, const int *kinds) {
     }
 }
 
+// bounded publisher (max_queue_len = 1) of items with a real lifetime: the publisher trims what a slow subscriber has not
+// fetched yet (that subscriber may then see an early end - the documented "left behind"), but whatever a subscriber does
+// receive is a complete copy of a value that was published, in increasing order
+struct Item {
+    long a = 0, b = 0;
+    Item() = default;
+    explicit Item(long v) : a(v), b(~v) {}
+    Item(const Item &o) : a(o.a), b(o.b) {}
+    Item &operator=(const Item &o) {
+        a = o.a;
+        b = o.b;
+        return *this;
+    }
+    ~Item() {
+        volatile long *p = &a, *q = &b;  // volatile: the compiler must not drop stores into a dying object
+        *p = -1;
+        *q = -1;  // poisoned: a copy taken from a destroyed item fails the checksum
+    }
+    bool ok() const { return b == ~a; }
+};
+static cocls::async<void> coro_sub_item(cocls::subscriber<Item> &sub) {
+    int64_t *s = vrt_scratch();
+    for (;;) {
+        bool more = co_await sub.next();
+        if (!more) break;
+        const Item &it = sub.value();
+        if (!it.ok()) vrt_fail("pub/torn-or-dead-value", "subscriber received an item with a broken checksum (a=%ld)", it.a);
+        got(0, (int)it.a);
+    }
+    s[S_DONE]++;
+}
+static void bounded_scenario(int kind, int mode) {
+    int64_t *s = vrt_scratch();
+    {
+        auto pub = std::make_unique<cocls::publisher<Item>>(1, 1);
+        auto st = mode == 0 ? cocls::subscribtion_type::all_values : mode == 1 ? cocls::subscribtion_type::skip_if_behind : cocls::subscribtion_type::skip_to_recent;
+        auto sub = std::make_unique<cocls::subscriber<Item>>(*pub, st);
+        vstd::thread th([&] {
+            vrt_label("s0");
+            if (kind == SK_CORO)
+                coro_sub_item(*sub).detach();
+            else {
+                while (sub->next()) {
+                    const Item &it = sub->value();
+                    if (!it.ok()) vrt_fail("pub/torn-or-dead-value", "subscriber received an item with a broken checksum (a=%ld)", it.a);
+                    got(0, (int)it.a);
+                }
+                vrt_scratch()[S_DONE]++;
+            }
+        });
+        vstd::thread pt([&] {
+            vrt_label("publisher");
+            pub->publish(Item(1));
+            pub->publish(Item(2));
+            pub->publish(Item(3));
+            pub->close();
+        });
+        pt.join();
+        vrt_label("main-join-subscribers");
+        th.join();
+        vrt_label("main-wait-subscriber-eos");
+        while (!s[S_DONE]) vrt_yield();
+        vrt_label("main");
+        long prev = 0;
+        for (int k = 0; k < s[S_CNT] && k < 10; k++) {
+            long v = s[S_VAL + k];
+            if (v <= prev) vrt_fail("pub/duplicate-or-backwards", "bounded publisher: subscriber received %ld after %ld", v, prev);
+            if (v > 3) vrt_fail("pub/value-never-published", "subscriber received %ld", v);
+            if (mode == 0 && v != prev + 1) vrt_fail("pub/gap", "bounded publisher, all_values: received %ld after %ld (a subscriber left behind ends, it does not skip)", v, prev);
+            prev = v;
+        }
+        vrt_outcome("n=%ld last=%ld", (long)s[S_CNT], prev);
+        sub.reset();
+    }
+}
+
 // a subscriber is copied on one thread while another thread registers new subscribers (the registration table grows)
 static void copy_scenario() {
     int64_t *s = vrt_scratch();
@@ -202,6 +278,8 @@ static void copy_scenario() {
 
 VRT_REGISTER(reg_pub) {
     vrt::add("pubcopy_concurrent-subscribe", [] { copy_scenario(); });
+    for (int mode = 0; mode < 3; mode++)
+        for (int k : {SK_CORO, SK_BLOCK}) vrt::add(std::string("pubbound_") + mode_names[mode] + "_" + sk_names[k], [=] { bounded_scenario(k, mode); });
     for (int a = 0; a < 2; a++) {
         vrt::add(std::string("pubmt1_") + sk_names[a], [=] {
             int k[2] = {a, 0};
